@@ -143,10 +143,22 @@ def make_details(items):
         if ctype == "text":
             d[name] = Content(ContentType("text", "plain", {"charset": "utf8"}),
                               lambda t=text: [t.encode("utf8")])
+        elif ctype == "text-split":
+            # the same kind of detail read in chunks that split a multi-byte character
+            whole = ("\xe9-" + text + "-\u2603").encode("utf8")
+            d[name] = Content(ContentType("text", "plain", {"charset": "utf8"}),
+                              lambda w=whole: [w[:1], w[1:-2], w[-2:]])
         else:
             d[name] = Content(ContentType("application", "octet-stream"),
                               lambda t=text: [t.encode("utf8")])
     return d
+
+
+def detail_bytes(text, ctype):
+    """The bytes make_details() produces for one [name, text, ctype] item."""
+    if ctype == "text-split":
+        return ("\xe9-" + text + "-\u2603").encode("utf8")
+    return text.encode("utf8")
 
 
 def make_exc_info(token):
@@ -228,9 +240,9 @@ def random_test_spec(rng, i, tok, *, allow_no_start=False):
     spec["form"] = rng.choice(forms)
     if spec["form"] == "details":
         items = []
-        names = rng.sample(["foo", "log", "traceback", "bin"], rng.randint(0, 3))
+        names = rng.sample(["foo", "log", "traceback", "bin", "traceback-1"], rng.randint(0, 3))
         for n in names:
-            items.append([n, tok("D"), "bin" if n == "bin" else "text"])
+            items.append([n, tok("D"), "bin" if n == "bin" else rng.choice(["text", "text", "text-split"])])
         if outcome == "addSkip" and rng.random() < 0.7:
             items.append(["reason", tok("R"), "text"])
         spec["details"] = items
